@@ -114,7 +114,8 @@ class SuperSpeedStreamInEndpoint(Elaboratable):
         # which of our "ping-pong" buffers is currently being targeted.
         buffer = Array(Memory(shape=data_width, depth=buffer_depth, init=[]) for _ in range(2))
         buffer_write_ports = Array(buffer[i].write_port(domain="ss") for i in range(2))
-        buffer_read_ports  = Array(buffer[i].read_port(domain="ss") for i in range(2))
+        buffer_read_ports  = Array(buffer[i].read_port(domain="ss", transparent_for=(buffer_write_ports[i],))
+                                   for i in range(2))
 
         m.submodules.transmit_buffer_0, m.submodules.transmit_buffer_1 = buffer
 
@@ -212,6 +213,19 @@ class SuperSpeedStreamInEndpoint(Elaboratable):
         ack_received      = handshakes_in.ack_received & is_to_us
         in_token_received = ack_received & is_in_token
 
+        # Our packet header information must be valid whenever the transmitter samples it: with the first
+        # word of a data packet (which, for single-word packets, is presented after we've left SEND_PACKET),
+        # and with each ZLP strobe. Drive it constantly; so it's valid in all of those cases.
+        m.d.comb += [
+            interface.tx_direction        .eq(USBDirection.IN),
+            interface.tx_sequence_number  .eq(sequence_number),
+            interface.tx_length           .eq(read_fill_count),
+            interface.tx_endpoint_number  .eq(self._endpoint_number),
+
+            # Any NRDY/ERDY packets we generate are always for our endpoint.
+            handshakes_out.endpoint_number.eq(self._endpoint_number),
+        ]
+
         with m.FSM(domain='ss'):
 
             # WAIT_FOR_DATA -- We don't yet have a full packet to transmit, so  we'll capture data
@@ -261,8 +275,10 @@ class SuperSpeedStreamInEndpoint(Elaboratable):
                 # Send our ERDY token...
                 m.d.comb += handshakes_out.send_erdy.eq(1)
 
-                # ... and once that send is complete, move on to waiting for an IN token.
-                with m.If(handshakes_out.done):
+                # ... and once our request has been accepted, move on to waiting for an IN token.
+                # (We can't wait for ``done`` here: it would also be pulsed by a preceding NRDY.)
+                with m.If(handshakes_out.ready):
+                    m.d.ss += erdy_required.eq(0)
                     m.next = "WAIT_TO_SEND"
 
 
@@ -298,14 +314,6 @@ class SuperSpeedStreamInEndpoint(Elaboratable):
             # SEND_PACKET -- we now have enough data to send _and_ have received an IN token.
             # We can now send our data over to the host.
             with m.State("SEND_PACKET"):
-
-                m.d.comb += [
-                    # Apply our general transfer information.
-                    interface.tx_direction        .eq(USBDirection.IN),
-                    interface.tx_sequence_number  .eq(sequence_number),
-                    interface.tx_length           .eq(read_fill_count),
-                    interface.tx_endpoint_number  .eq(self._endpoint_number),
-                ]
 
                 with m.If(~out_stream.valid.any() | out_stream.ready):
                     # Once we emitted a word of data for our receiver, move to the next word in our packet.
@@ -362,8 +370,9 @@ class SuperSpeedStreamInEndpoint(Elaboratable):
             # received it correctly. We'll wait to see if the host ACKs.
             with m.State("WAIT_FOR_ACK"):
 
-                # We're done transmitting data.
-                m.d.ss   += out_stream.valid.eq(0)
+                # We're done transmitting data, once our final word has been accepted.
+                with m.If(~out_stream.valid.any() | out_stream.ready):
+                    m.d.ss   += out_stream.valid.eq(0)
 
                 # Reset our send-position for the next data packet.
                 m.d.ss   += send_position   .eq(0)
@@ -383,10 +392,7 @@ class SuperSpeedStreamInEndpoint(Elaboratable):
 
                         # In this case, we'll re-transmit the relevant data, either by sending another ZLP...
                         with m.If(last_packet_was_zlp):
-                            m.d.comb += [
-                                interface.tx_zlp.eq(1),
-                                advance_sequence.eq(1),
-                            ]
+                            m.d.comb += interface.tx_zlp.eq(1)
 
                         # ... or by moving right back into sending a data packet.
                         with m.Else():
@@ -397,8 +403,10 @@ class SuperSpeedStreamInEndpoint(Elaboratable):
                     # of the previous packet [USB3.2r1: 8.12.1.2].
                     with m.Else():
 
-                        # We no longer need to keep the data that's been acknowledged; clear it.
-                        m.d.ss += read_fill_count.eq(0)
+                        # We no longer need to keep the data that's been acknowledged; clear it,
+                        # and move on to the next sequence number.
+                        m.d.ss   += read_fill_count.eq(0)
+                        m.d.comb += advance_sequence.eq(1)
 
                         # Figure out if we'll need to follow up with a ZLP. If we have ZLP generation enabled,
                         # we'll make sure we end on a short packet. If this is max-packet-size packet _and_ our
@@ -414,10 +422,10 @@ class SuperSpeedStreamInEndpoint(Elaboratable):
                             # and then continue waiting for the next ACK.
                             with m.If(is_in_token):
 
-                                # ... send a ZLP...
+                                # ... send a ZLP, which already carries the next sequence number...
                                 m.d.comb += [
                                     interface.tx_zlp.eq(1),
-                                    advance_sequence.eq(1),
+                                    interface.tx_sequence_number.eq(next_sequence_number),
                                 ]
 
                                 # ... and clear the need to follow up with one, since we've just sent a short packet.
@@ -435,11 +443,9 @@ class SuperSpeedStreamInEndpoint(Elaboratable):
                         # for us in our "write buffer", which we've been filling in the background.
                         # If this is the case, we'll flip which buffer we're working with, and then
                         # ready ourselves for transmit.
-                        packet_completing = in_stream.valid & (write_fill_count + 4 >= self._max_packet_size)
+                        packet_completing = in_stream.valid[0] & \
+                            ((write_fill_count + 4 >= self._max_packet_size) | in_stream.last)
                         with m.Elif(~in_stream.ready | packet_completing):
-                            m.d.comb += [
-                                advance_sequence   .eq(1),
-                            ]
                             m.d.ss += [
                                 ping_pong_toggle   .eq(~ping_pong_toggle),
                                 read_stream_ended  .eq(0),
@@ -455,8 +461,12 @@ class SuperSpeedStreamInEndpoint(Elaboratable):
                                 m.next = "WAIT_TO_SEND"
 
                         # If neither of the above conditions are true; we now don't have enough data to send.
-                        # We'll wait for enough data to transmit.
+                        # We'll wait for enough data to transmit; and tell the host so if it's asking for more.
                         with m.Else():
+                            with m.If(is_in_token):
+                                m.d.comb += handshakes_out.send_nrdy  .eq(1)
+                                m.d.ss   += erdy_required             .eq(1)
+
                             m.next = "WAIT_FOR_DATA"
 
         return m
